@@ -584,6 +584,17 @@ func runC19(c *eng.Ctx) {
 				a := eng.CallArgs(cs.Instr.(*ssa.Call))
 				if len(a) == 2 && !eng.IsNilConst(a[1]) && eng.DependsOn(a[1], func(x ssa.Value) bool { return x == rec[0].Instr.(ssa.Value) }) {
 					okDone = true
+					// … for EVERY kind of stage: recover() runs on every path of the deferred function, and whether the stage is completed
+					// depends on the recovered value alone (a pooled stage's Plan() still runs inline, inside its parent's handler)
+					if !p.MustPass(g, eng.CallTo("builtin:recover"), 0) {
+						okDone = false
+					}
+					conds, _ := eng.GuardingConds(g, cs.Instr)
+					for _, cd := range conds {
+						if !eng.DependsOn(cd, func(x ssa.Value) bool { return x == rec[0].Instr.(ssa.Value) }) {
+							okDone = false
+						}
+					}
 				}
 			}
 			if okDone {
